@@ -40,18 +40,7 @@ D1 = "value passed to Run ignored when the first reference to the global in the 
 D2 = "non-pointer value supplied to Run: every package-level function (body, imported macro, rendered file, " \
      "extending-file macro) gets its own copy (predefVarIndex appends one Global per function), so a write in one " \
      "is not seen in another"
-PROPOSED_KNOWN = [
-    {"kind": "known", "signature": dict({"fam": "globals", "firstref": first}, **shape), "what": (D1 % word) + " - " + how}
-    for first, word in (("macro", "macro"), ("closure", "function literal"))
-    for shape, how in (({"clause": "read", "got": "zero"}, "a read in the body file sees 0"),
-                       ({"clause": "read", "got": "supplied", "cross": True}, "a write in the body file is not seen from another file"),
-                       ({"clause": "read", "got": "stale-write", "cross": True}, "a write in the body file is not seen from another file (older write seen)"),
-                       ({"clause": "caller", "got": "supplied", "sup": "pointer"}, "a write in the body file does not reach the caller's variable"),
-                       ({"clause": "caller", "got": "stale-write", "sup": "pointer"}, "a write in the body file does not reach the caller's variable (older write kept)"))
-] + [
-    {"kind": "known", "signature": {"fam": "globals", "clause": "read", "sup": "value", "cross": True, "got": got}, "what": D2 + how}
-    for got, how in (("supplied", " - the supplied value is read"), ("stale-write", " - an older write is read"))
-]
+PROPOSED_KNOWN = []   # both defects found by this check (D1, D2) were fixed in /repo (known-findings.json, kind "fixed")
 
 CORE = ["FixedMeetsRef", "AsWrittenDeviatesOnlyIf", "UsedVarsReported"]
 THEOREMS = ["FixedMeetsRef", "AsWrittenDeviatesOnlyIf", "PkgFixLeavesOnlyCross", "DedupFixLeavesOnlyLitFirst",
